@@ -51,6 +51,8 @@ type TxSpec struct {
 	Gas        uint64       `json:"gas,omitempty"`
 	Memo       string       `json:"memo,omitempty"`
 	Timeout    uint64       `json:"timeout,omitempty"`
+	// FeeGranter names the account whose fee allowance is to be used (AuthInfo.fee.granter).
+	FeeGranter string `json:"fee_granter,omitempty"`
 	// TipFrom / TipAmount set the optional AuthInfo.tip field (tipper address, amount).
 	TipFrom   string    `json:"tip_from,omitempty"`
 	TipAmount sdk.Coins `json:"tip_amount,omitempty"`
@@ -84,6 +86,13 @@ func (c *Chain) BuildTx(spec TxSpec) (raw []byte, err error) {
 	b.SetFeeAmount(spec.Fee)
 	b.SetMemo(spec.Memo)
 	b.SetTimeoutHeight(spec.Timeout)
+	if spec.FeeGranter != "" {
+		fg, err := sdk.AccAddressFromBech32(spec.FeeGranter)
+		if err != nil {
+			return nil, err
+		}
+		b.SetFeeGranter(fg)
+	}
 	if spec.TipFrom != "" {
 		b.SetTip(&txtypes.Tip{Tipper: spec.TipFrom, Amount: spec.TipAmount})
 	}
